@@ -498,11 +498,15 @@ func (b *fzBuilder) feature(layerBias bool, linkBias bool) {
 	case k < 37:
 		// fifo, then something beneath its name
 		b.feat("fifo")
-		n := r.pick([]string{"ff", "a/ff", "pf", "b", "d"})
+		n := r.pick([]string{"ff", "a/ff", "pf", "b", "d", "ff", "a/ff", "pf", "b", "d", ".", "", "a/.."})
 		b.add(b.std(n, tar.TypeFifo))
+		if n == "." || n == "" || n == "a/.." {
+			b.feat("fifo-named-as-destination")
+			return
+		}
 		if r.chance(3, 4) {
 			b.feat("beneath-fifo")
-			sub := r.pick([]string{"x", ".wh.x", ".wh..wh..opq", "d/", "x/y/z", ".wh.", ".wh..."})
+			sub := r.pick([]string{"x", ".wh.x", ".wh..wh..opq", "d/", "x/y/z", ".wh.", ".wh...", "x/.wh.", "x/.wh..", "x/y/.wh.", "x/.wh.y", "x/.wh..wh..opq"})
 			typ := r.fzPickByte([]byte{tar.TypeReg, tar.TypeReg, tar.TypeDir, tar.TypeLink, tar.TypeSymlink, tar.TypeFifo})
 			e := b.std(n+"/"+sub, typ)
 			if typ == tar.TypeLink || typ == tar.TypeSymlink {
@@ -591,7 +595,7 @@ func (b *fzBuilder) feature(layerBias bool, linkBias bool) {
 	case k < 60:
 		// whiteouts and opaque markers
 		b.feat("whiteout")
-		d := r.pick([]string{"", "", "a/", "d/", "d/sub/", "newdir/", "pf/", "pd/", "esc/", "../", "b/", "a/up/"})
+		d := r.pick([]string{"", "", "a/", "d/", "d/sub/", "newdir/", "pf/", "pf/", "pf/", "pd/", "esc/", "../", "b/", "a/up/", "pf/x/", "pd/x/", "b/x/"})
 		w := r.pick([]string{".wh.f", ".wh.b", ".wh.a", ".wh.d", ".wh.old", ".wh.missing", ".wh..wh..opq", ".wh..wh..opq", ".wh...", ".wh.", ".wh..", ".wh.pf", ".wh.esc", ".wh..wh.foo", ".wh.h1"})
 		e := b.std(d+w, r.fzPickByte([]byte{tar.TypeReg, tar.TypeReg, tar.TypeReg, tar.TypeDir, tar.TypeSymlink, tar.TypeLink}))
 		if e.Type == tar.TypeSymlink || e.Type == tar.TypeLink {
@@ -615,6 +619,11 @@ func (b *fzBuilder) feature(layerBias bool, linkBias bool) {
 				l.Link = ".wh..wh.plnk/" + sn
 				b.add(l)
 				b.feat("staging-link")
+			}
+			if r.chance(1, 5) {
+				// the staging directory exists now; then an entry that names the destination itself
+				b.add(b.std(r.pick([]string{".", "", "a/..", "./"}), r.fzPickByte([]byte{tar.TypeFifo, tar.TypeFifo, tar.TypeReg, tar.TypeChar, tar.TypeSymlink})))
+				b.feat("staging-then-entry-named-as-destination")
 			}
 		case 3:
 			l := b.std("lz", tar.TypeLink)
